@@ -14,15 +14,17 @@ package cache
 //@ pure bcNodeOK(c *BoundedCache, n *boundedNode) bool = !isnil(n) && has(c.nodeByKey, n.Key) && c.nodeByKey[n.Key] == n
 //@ pure bcEnds(c *BoundedCache) bool = (isnil(c.head) <==> isnil(c.tail)) && allocated(c.head) && allocated(c.tail) && (!isnil(c.head) ==> bcNodeOK(c, c.head) && isnil(c.head.prev)) && (!isnil(c.tail) ==> bcNodeOK(c, c.tail) && isnil(c.tail.next))
 //@ pure bcLinks(c *BoundedCache, n *boundedNode) bool = allocated(n.prev) && allocated(n.next) && (isnil(n.prev) ==> n == c.head) && (isnil(n.next) ==> n == c.tail) && (!isnil(n.next) ==> bcNodeOK(c, n.next) && n.next.prev == n) && (!isnil(n.prev) ==> bcNodeOK(c, n.prev) && n.prev.next == n)
-//@ pure bcWF(c *BoundedCache) bool = !isnil(c.nodeByKey) && c.capacity >= 1 && bcEnds(c) && (forall k string :: has(c.nodeByKey, k) ==> !isnil(c.nodeByKey[k]) && allocated(c.nodeByKey[k]) && c.nodeByKey[k].Key == k && bcLinks(c, c.nodeByKey[k]))
+//@ opaque bcWF(c *BoundedCache) bool = !isnil(c.nodeByKey) && c.capacity >= 1 && bcEnds(c) && (forall k string :: has(c.nodeByKey, k) ==> !isnil(c.nodeByKey[k]) && allocated(c.nodeByKey[k]) && c.nodeByKey[k].Key == k && bcLinks(c, c.nodeByKey[k]))
 
 //@ func (*BoundedCache[K, V]).remove
+//@   reveal bcWF
 //@   requires !isnil(c) && bcWF(c) && bcNodeOK(c, node)
 //@   ensures bcWF(c)
 //@   ensures !has(c.nodeByKey, old(node.Key))
 //@   ensures forall k string :: k != old(node.Key) ==> has(c.nodeByKey, k) == old(has(c.nodeByKey, k)) && c.nodeByKey[k] == old(c.nodeByKey[k])
 
 //@ func (*BoundedCache[K, V]).moveToTail
+//@   reveal bcWF
 //@   requires !isnil(c) && bcWF(c) && bcNodeOK(c, node) && !isnil(c.tail)
 //@   modifies c.head, c.tail, node.prev, node.next, node.prev.next, node.next.prev, c.tail.next
 //@   ensures c.tail == node && !isnil(c.nodeByKey) && c.capacity >= 1
@@ -33,12 +35,14 @@ package cache
 //@   ensures forall k string :: has(c.nodeByKey, k) && !isnil(c.nodeByKey[k].prev) ==> bcNodeOK(c, c.nodeByKey[k].prev) && c.nodeByKey[k].prev.next == c.nodeByKey[k]
 
 //@ func NewBoundedCache
+//@   reveal bcWF
 //@   ensures !isnil(result) && fresh(result) && bcWF(result) && result.capacity == (capacity <= 0 ? 9223372036854775807 : capacity)
 //@   ensures forall k string :: !has(result.nodeByKey, k)
 
 // insert: the new node becomes the tail; when the cache is full the head (least recently used) is evicted
 // first, and nothing else leaves. UB by documentation when the key is already present.
 //@ func (*BoundedCache[K, V]).insert
+//@   reveal bcWF
 //@   requires !isnil(c) && bcWF(c) && !has(c.nodeByKey, key)
 //@   ensures !isnil(c.nodeByKey) && c.capacity >= 1
 //@   ensures bcEnds(c)
@@ -51,20 +55,24 @@ package cache
 //@   ensures forall k string :: k != key && old(has(c.nodeByKey, k)) && !(old(len(c.nodeByKey)) == c.capacity && k == old(c.head.Key)) ==> has(c.nodeByKey, k)
 
 //@ func (*BoundedCache[K, V]).Len
+//@   reveal bcWF
 //@   modifies nothing
 //@   ensures result == len(c.nodeByKey)
 
 //@ func (*BoundedCache[K, V]).Capacity
+//@   reveal bcWF
 //@   modifies nothing
 //@   ensures result == c.capacity
 
 //@ func (*BoundedCache[K, V]).Contains
+//@   reveal bcWF
 //@   modifies nothing
 //@   ensures result == has(c.nodeByKey, key)
 
 // Get / GetEntry: a hit returns the stored value and makes the entry the most recently used; the set of
 // entries does not change.
 //@ func (*BoundedCache[K, V]).Get
+//@   reveal bcWF
 //@   noinline
 //@   objinv bcWF(c)
 //@   ensures ok == old(has(c.nodeByKey, key))
@@ -72,35 +80,42 @@ package cache
 //@   ensures forall k string :: has(c.nodeByKey, k) == old(has(c.nodeByKey, k)) && c.nodeByKey[k] == old(c.nodeByKey[k])
 
 //@ func (*BoundedCache[K, V]).GetEntry
+//@   reveal bcWF
 //@   objinv bcWF(c)
 //@   ensures ok == old(has(c.nodeByKey, key))
 //@   ensures ok ==> c.tail == c.nodeByKey[key] && entry == addr(c.nodeByKey[key].Entry)
+//@   ensures ok ==> entry.Key == key
 //@   ensures !ok ==> isnil(entry)
 //@   ensures forall k string :: has(c.nodeByKey, k) == old(has(c.nodeByKey, k)) && c.nodeByKey[k] == old(c.nodeByKey[k])
 
 // Set: afterwards the key maps to the value and is the most recently used entry; no other key is added.
 //@ func (*BoundedCache[K, V]).Set
+//@   reveal bcWF
 //@   noinline
 //@   objinv bcWF(c)
 //@   ensures has(c.nodeByKey, key) && c.nodeByKey[key].Value == value && c.tail == c.nodeByKey[key]
 //@   ensures forall k string :: k != key && has(c.nodeByKey, k) ==> old(has(c.nodeByKey, k)) && c.nodeByKey[k] == old(c.nodeByKey[k])
 
 //@ func (*BoundedCache[K, V]).Insert
+//@   reveal bcWF
 //@   objinv bcWF(c)
 //@   ensures result == !old(has(c.nodeByKey, key))
 //@   ensures result ==> has(c.nodeByKey, key) && c.nodeByKey[key].Value == value && c.tail == c.nodeByKey[key]
 //@   ensures !result ==> (forall k string :: has(c.nodeByKey, k) == old(has(c.nodeByKey, k)) && c.nodeByKey[k] == old(c.nodeByKey[k]))
 
 //@ func (*BoundedCache[K, V]).InsertUnchecked
+//@   reveal bcWF
 //@   requires !has(c.nodeByKey, key)
 //@   objinv bcWF(c)
 //@   ensures has(c.nodeByKey, key) && c.nodeByKey[key].Value == value && c.tail == c.nodeByKey[key]
 
 //@ func (*BoundedCache[K, V]).Remove
+//@   reveal bcWF
 //@   objinv bcWF(c)
 //@   ensures result == old(has(c.nodeByKey, key)) && !has(c.nodeByKey, key)
 //@   ensures forall k string :: k != key ==> has(c.nodeByKey, k) == old(has(c.nodeByKey, k)) && c.nodeByKey[k] == old(c.nodeByKey[k])
 
 //@ func (*BoundedCache[K, V]).Clear
+//@   reveal bcWF
 //@   objinv bcWF(c)
 //@   ensures forall k string :: !has(c.nodeByKey, k)
